@@ -336,3 +336,179 @@ def c10_unit(task):
         info.pop("traces", None)
         out["explore"] = info
     return out
+
+
+# --------------------------------------------------------------------------- C10: faults on REAL partitions
+
+PART_FAULTS = ["none", "dup_send_same_array", "dup_send_other_array", "dup_send_other_dtype",
+               "dup_send_other_part", "orphan_send_existing_rank", "orphan_send_rank_beyond_size",
+               "drop_recv", "drop_send", "retag_send", "cycle_needed_pids", "recv_name_as_output",
+               "drop_output_read_later"]
+
+
+def _all_sends(part):
+    """[(pid, name, index, send)] in a deterministic order"""
+    out = []
+    for pid in sorted(part.parts):
+        p = part.parts[pid]
+        for name in sorted(p.name_to_send_nodes):
+            for k, sd in enumerate(p.name_to_send_nodes[name]):
+                out.append((pid, name, k, sd))
+    return out
+
+
+def apply_partition_fault(parts, kind, site, size):
+    """parts: list of DistributedGraphPartition (one per rank).  Returns (new list, description)
+    or None if the fault does not apply at this site."""
+    import dataclasses
+    import numpy as np
+    from pytato.distributed.partition import DistributedGraphPartition
+    ranks_with_sends = [r for r, pt_ in enumerate(parts) if _all_sends(pt_)]
+    ranks_with_recvs = [r for r, pt_ in enumerate(parts)
+                        if any(p.name_to_recv_node for p in pt_.parts.values())]
+
+    def rebuild(r, newparts):
+        out = list(parts)
+        out[r] = DistributedGraphPartition(parts=newparts, name_to_output=parts[r].name_to_output,
+                                           overall_output_names=parts[r].overall_output_names)
+        return out
+
+    def with_part(r, pid, **changes):
+        newparts = dict(parts[r].parts)
+        newparts[pid] = dataclasses.replace(parts[r].parts[pid], **changes)
+        return rebuild(r, newparts)
+
+    if kind == "none":
+        return list(parts), "unchanged"
+    if kind in ("dup_send_same_array", "dup_send_other_array", "dup_send_other_dtype", "dup_send_other_part",
+                "drop_send", "retag_send"):
+        if not ranks_with_sends:
+            return None
+        r = ranks_with_sends[site % len(ranks_with_sends)]
+        sends = _all_sends(parts[r])
+        pid, name, k, sd = sends[(site // len(ranks_with_sends)) % len(sends)]
+        p = parts[r].parts[pid]
+        m = {n: list(v) for n, v in p.name_to_send_nodes.items()}
+        if kind == "dup_send_same_array":
+            m[name].append(sd)
+            return with_part(r, pid, name_to_send_nodes=m), f"rank {r} part {pid}: send of {name} twice"
+        if kind == "dup_send_other_array":
+            cands = [n for n in sorted(p.output_names) if n != name and n in parts[r].name_to_output
+                     and parts[r].name_to_output[n].shape == sd.data.shape
+                     and parts[r].name_to_output[n].dtype == sd.data.dtype]
+            if not cands:
+                return None
+            n2 = cands[site % len(cands)]
+            m.setdefault(n2, []).append(sd.copy(data=parts[r].name_to_output[n2]))
+            return with_part(r, pid, name_to_send_nodes=m), \
+                f"rank {r} part {pid}: {n2} also sent to ({sd.dest_rank}, {sd.comm_tag!r})"
+        if kind == "dup_send_other_dtype":
+            other = np.float32 if sd.data.dtype != np.float32 else np.float64
+            m[name].append(sd.copy(data=sd.data.astype(other)))
+            return with_part(r, pid, name_to_send_nodes=m), \
+                f"rank {r} part {pid}: second send of {name} as {np.dtype(other)}"
+        if kind == "dup_send_other_part":
+            others = [q for q in sorted(parts[r].parts) if q != pid]
+            if not others:
+                return None
+            q = others[site % len(others)]
+            pq = parts[r].parts[q]
+            mq = {n: list(v) for n, v in pq.name_to_send_nodes.items()}
+            mq.setdefault(name, []).append(sd)
+            return with_part(r, q, name_to_send_nodes=mq), f"rank {r}: send of part {pid} repeated in part {q}"
+        if kind == "drop_send":
+            del m[name][k]
+            if not m[name]:
+                del m[name]
+            return with_part(r, pid, name_to_send_nodes=m), f"rank {r} part {pid}: a send of {name} removed"
+        if kind == "retag_send":
+            m[name][k] = sd.copy(comm_tag="partition-fault-tag")
+            return with_part(r, pid, name_to_send_nodes=m), f"rank {r} part {pid}: send of {name} retagged"
+    if kind in ("orphan_send_existing_rank", "orphan_send_rank_beyond_size"):
+        r = site % len(parts)
+        pid = sorted(parts[r].parts)[(site // len(parts)) % len(parts[r].parts)]
+        p = parts[r].parts[pid]
+        outs = [n for n in sorted(p.output_names) if n in parts[r].name_to_output]
+        if not outs or (kind == "orphan_send_existing_rank" and size < 2):
+            return None
+        name = outs[site % len(outs)]
+        from pytato.distributed.nodes import make_distributed_send
+        dst = (r + 1) % size if kind == "orphan_send_existing_rank" else size + 1
+        m = {n: list(v) for n, v in p.name_to_send_nodes.items()}
+        m.setdefault(name, []).append(make_distributed_send(parts[r].name_to_output[name], dst, "orphan-send"))
+        return with_part(r, pid, name_to_send_nodes=m), f"rank {r} part {pid}: extra send of {name} to rank {dst}"
+    if kind in ("drop_recv", "recv_name_as_output"):
+        if not ranks_with_recvs:
+            return None
+        r = ranks_with_recvs[site % len(ranks_with_recvs)]
+        cands = [(pid, n) for pid in sorted(parts[r].parts) for n in sorted(parts[r].parts[pid].name_to_recv_node)]
+        pid, name = cands[(site // len(ranks_with_recvs)) % len(cands)]
+        p = parts[r].parts[pid]
+        if kind == "drop_recv":
+            m = {n: v for n, v in p.name_to_recv_node.items() if n != name}
+            return with_part(r, pid, name_to_recv_node=m), f"rank {r} part {pid}: receive {name} removed"
+        return with_part(r, pid, output_names=p.output_names | {name}), \
+            f"rank {r} part {pid}: received name {name} declared a part output"
+    if kind == "cycle_needed_pids":
+        cands = [r for r, pt_ in enumerate(parts) if len(pt_.parts) >= 2]
+        if not cands:
+            return None
+        r = cands[site % len(cands)]
+        pids = sorted(parts[r].parts)
+        return with_part(r, pids[0], needed_pids=parts[r].parts[pids[0]].needed_pids | {pids[-1]}), \
+            f"rank {r}: part {pids[0]} additionally needs part {pids[-1]}"
+    if kind == "drop_output_read_later":
+        cands = []
+        for r, pt_ in enumerate(parts):
+            for pid in sorted(pt_.parts):
+                for n in sorted(pt_.parts[pid].output_names):
+                    if any(n in q.partition_input_names for q in pt_.parts.values() if q.pid != pid):
+                        cands.append((r, pid, n))
+        if not cands:
+            return None
+        r, pid, n = cands[site % len(cands)]
+        return with_part(r, pid, output_names=parts[r].parts[pid].output_names - {n}), \
+            f"rank {r} part {pid}: output {n} (read by another part) removed"
+    raise ValueError(kind)
+
+
+def c10_partfault_unit(task):
+    """a fault injected into the REAL partition of a valid program, then the real
+    verify_distributed_partition on every rank"""
+    from pytato.distributed.verify import verify_distributed_partition
+    spec = get_spec(task)
+    n = spec["nranks"]
+    kind, site = task["fault"]
+    out = {"index": task.get("index"), "profile": task.get("profile"), "fault": [kind, site], "nranks": n,
+           "patterns": G.known_patterns(spec), "spec": spec}
+    pr = distrun.partition_program(spec, timeout=task.get("timeout", 30.0), do_verify=False, do_number=False)
+    if any(r.status == "timeout" for r in pr.ranks):
+        out["timeout"] = True
+        return out
+    if not pr.all_ok:
+        out["inapplicable"] = "no partition"
+        return out
+    res = apply_partition_fault([r.part for r in pr.ranks], kind, site, n)
+    if res is None:
+        out["inapplicable"] = "fault does not apply"
+        return out
+    newparts, desc = res
+    out["description"] = desc
+    world = fakempi.World(n, timeout=task.get("timeout", 30.0))
+    outs = world.run(lambda comm: verify_distributed_partition(comm, newparts[comm.rank]))
+    out["ranks"] = [{"status": o.status, "exc": type(o.exc).__name__ if o.status == "raised" else None,
+                     "text": str(o.exc)[:160] if o.status == "raised" else None} for o in outs]
+    if any(o.status == "timeout" for o in outs):
+        out["timeout"] = True
+        return out
+    # the mutated partitions for the Lean model
+    for rp, np_ in zip(pr.ranks, newparts):
+        rp.part = np_
+        rp.npart = None
+    psers = [distrun.serialize_partition(pr, r) for r in range(n)]
+    tabs = distrun.name_tables(psers)
+    out["P"] = distrun.lean_partition(psers, tabs)
+    out["pins"] = "(" + " ".join(
+        f"({ps['rank']} {int(p['pid'])} ({' '.join(str(tabs[ps['rank']][nm]) for nm in p['pin'])}))"
+        for ps in psers for p in ps["parts"]) + ")"
+    return out
